@@ -66,6 +66,7 @@ func runC19(c *Ctx) {
 		return
 	}
 	const NI = "consensus/sync.NodeInfo"
+	checkCacheIndexesCoUpdated(c, "C19.R6 cache-indexes-co-updated")
 
 	// ---- R1
 	{
@@ -176,8 +177,9 @@ func runC19(c *Ctx) {
 			return ok && CalleeName(cl.Common()) == "(*p2p.Connection).BanPeer"
 		}
 		nEdges := 0
-		for i, e := range ff.Edges {
-			f := ff.Facts[i]
+		_ = ff
+		for _, de := range deepEdges(h) { // the request may be parsed and checked in a helper
+			e, f := de.E, de.F
 			malformed := ""
 			switch {
 			case f.IsCmp && f.Op.String() == "==" && strings.HasSuffix(f.L.String(), ".Data") && f.R.Sym == "nil":
@@ -302,7 +304,7 @@ func runC19(c *Ctx) {
 		for i, e := range ff.Edges {
 			f := ff.Facts[i]
 			_ = e
-			if f.IsCmp && f.Op.String() == "!=" && f.R.Sym == "nil" && (f.L.Op == "call" && (f.L.Sym == "dyn" || strings.Contains(f.L.Sym, "applyBlocks") || strings.Contains(f.L.String(), ".processor("))) {
+			if f.IsCmp && f.Op.String() == "!=" && f.R.Sym == "nil" && (f.L.Op == "call" && (strings.HasPrefix(f.L.Sym, "dyn") || strings.Contains(f.L.Sym, "applyBlocks") || strings.Contains(f.L.String(), ".processor("))) {
 				first := e.To.Instrs[0]
 				isRestore := func(in ssa.Instruction) bool {
 					cl, ok := in.(ssa.CallInstruction)
@@ -339,6 +341,20 @@ func runC19(c *Ctx) {
 
 		// restoreBlocks shape
 		del := CallsIn(restore, "(*consensus/sync.fastSyncer).deleteTillCommonBlock")
+		if len(del) == 0 {
+			// the revert loop written elsewhere (a shared helper): found by what it does — it
+			// is handed the syncer's reverter
+			for _, call := range AllCalls(restore) {
+				if newHelperCallee(call) == nil {
+					continue
+				}
+				for _, a := range call.Common().Args {
+					if t := T(a); t.Op == "field" && t.Sym == "reverter" {
+						del = append(del, Site{restore, call})
+					}
+				}
+			}
+		}
 		get := CallsIn(restore, "(*blockchain.DataAccess).GetTempBlocks")
 		srt := CallsIn(restore, "blockchain.SortBlockByHeightAsc")
 		okShape := len(del) == 1 && len(get) == 1 && len(srt) == 1 && instrDominates(del[0].Call, get[0].Call) && instrDominates(get[0].Call, srt[0].Call)
@@ -561,4 +577,55 @@ func completeRange(fn *ssa.Function, ff *FuncFacts, v ssa.Value) (bool, string) 
 		return false, "nothing returned"
 	}
 	return true, fmt.Sprintf("%d make, %d append sites", len(bases), len(appends))
+}
+
+// checkCacheIndexesCoUpdated: the block cache keeps two indexes (by ID and by height); a block
+// leaves both or neither. On every path, a delete from one is preceded or followed by a delete
+// from the other — otherwise a reverted block stays retrievable by ID (and is offered as a
+// common block, or served from, although it is not on the node's chain any more).
+func checkCacheIndexesCoUpdated(c *Ctx, rule string) {
+	p := c.P
+	n := 0
+	for _, fn := range p.Subjects() {
+		if !strings.HasPrefix(FuncKey(fn), "pkg/blockchain.(*blockCache).") || len(fn.Blocks) == 0 {
+			continue
+		}
+		dels := map[string][]ssa.CallInstruction{}
+		for _, call := range AllCallsDeep(fn) {
+			if CalleeName(call.Common()) != "builtin:delete" {
+				continue
+			}
+			t := T(call.Common().Args[0])
+			for _, f := range []string{"heightIndex", "cachedBlocks"} {
+				if t.Any(IsField("blockchain.blockCache", f).F) {
+					dels[f] = append(dels[f], call)
+				}
+			}
+		}
+		for _, pair := range [][2]string{{"heightIndex", "cachedBlocks"}, {"cachedBlocks", "heightIndex"}} {
+			for _, d := range dels[pair[0]] {
+				n++
+				isOther := func(in ssa.Instruction) bool {
+					for _, o := range dels[pair[1]] {
+						if in == o.(ssa.Instruction) {
+							return true
+						}
+					}
+					return false
+				}
+				before := false
+				for _, o := range dels[pair[1]] {
+					if instrDominates(o, d) {
+						before = true
+					}
+				}
+				var path []*ssa.BasicBlock
+				if !before {
+					path = reachesReturnAvoiding(d, isOther, nil)
+				}
+				c.Require(rule, FuncKey(fn)+": delete("+pair[0]+") ⇒ delete("+pair[1]+")", p.InstrPos(d), "a block removed from one cache index is removed from the other on every path", path == nil, pathStr(path))
+			}
+		}
+	}
+	c.MinInstances(rule, n, 2)
 }
